@@ -20,7 +20,7 @@ Requests (one per line; `W` = worker index):
   (step W now idle)                                                           the executor step
   (step W now ranfinished)
   (step W now ran END (mb n) (aw (t none|some)…) (af (t Class)…) (sel 0|1 [start|none (timeout ms)…]))
-        END := yields | (finishes) | (raises Class) | parks-selecting | parks-spawning | finishes-empty
+        END := yields | (finishes) | (raises Class) | parks-selecting | parks-spawning | parks-effecting | finishes-empty
         the record after END is the running process's own state after its slice (an input: the body is abstract)
                                          → ok EVENTS                       (EVENTS of check_completed_processes)
   (expired W now)                        the parked processes `check_expired_timeouts now` would wake       → (pid…)
@@ -29,7 +29,7 @@ Requests (one per line; `W` = worker index):
                                          given (a permutation: several processes expired at once)          → ok | not-a-permutation
   (setqueue W pid…)                      re-order the run queue (same elements) — `HashSet` iteration order of
                                          simultaneously expired processes is not modelled          → ok | not-a-permutation
-  (state W)                              → queue=(…) selecting=(…) spawning=(…) | pid res aw af mb sel | …
+  (state W)                              → queue=(…) selecting=(…) spawning=(…) effecting=(…) | pid res aw af mb sel | …
 EVENTS := [awaiter (t none|ok|Class)…]…
 -/
 open QM QM.Exec
@@ -71,7 +71,7 @@ def renderProc (pid : Nat) (p : Proc Val) : String :=
 
 def renderWorker (w : Worker Val) : String :=
   " | ".intercalate
-    (s!"queue={renderNats w.ex.queue} selecting={renderNats (sortBy id w.ex.selecting)} spawning={renderNats (sortBy id w.ex.spawning)}" ::
+    (s!"queue={renderNats w.ex.queue} selecting={renderNats (sortBy id w.ex.selecting)} spawning={renderNats (sortBy id w.ex.spawning)} effecting={renderNats (sortBy id w.ex.effecting)}" ::
       (sortBy (·.1) w.ex.procs).map (fun (k, p) => renderProc k p))
 
 def setNth {α} : List α → Nat → α → List α
@@ -147,6 +147,7 @@ def endOfSx : Sx → Option (SliceEnd Val)
   | .list [.atom "raises", .atom c] => (errOfName c).map .raises
   | .atom "parks-selecting" => some .parksSelecting
   | .atom "parks-spawning" => some .parksSpawning
+  | .atom "parks-effecting" => some .parksEffecting
   | .atom "finishes-empty" => some .finishesEmpty
   | _ => none
 
